@@ -222,9 +222,9 @@ func (t *SType) inline(ind string) string {
 		b.WriteString("type enumeration {\n")
 		for i, e := range t.Enums {
 			if t.EnumID != nil {
-				fmt.Fprintf(&b, "%s  enum %s { value %d; }\n", ind, e, t.EnumID[i])
+				fmt.Fprintf(&b, "%s  enum %s { value %d; }\n", ind, yqEnum(e), t.EnumID[i])
 			} else {
-				fmt.Fprintf(&b, "%s  enum %s;\n", ind, e)
+				fmt.Fprintf(&b, "%s  enum %s;\n", ind, yqEnum(e))
 			}
 		}
 		b.WriteString(ind + "}")
@@ -577,26 +577,27 @@ func (s *Schema) bind() error {
 // schema generator
 
 type GenOpts struct {
-	MaxDepth     int
-	MaxChildren  int
-	Choices      bool
-	NestedChoice bool
-	Lists        bool
-	CompoundKeys bool
-	LeafLists    bool
-	Defaults     bool
-	NonConfig    bool
-	Types        []string // allowed leaf base types
-	KeyTypes     []string
-	Aug          bool   // contribute some nodes from an augmenting module
-	Sub          bool   // write some top-level nodes in a submodule (not together with Aug)
-	AugSub       bool   // with Aug: the augments are written in a submodule of the augmenting module
-	Prefix       string // prefix of the main module ("" = its name, m)
-	ModName      string // name of the main module ("" = m)
-	ListsOfAll   bool   // leaf-lists of bits and binary too (a leaf-list of empty is not legal)
-	Presence     bool
-	Wraps        bool // write some leaf types through a typedef, as a union member or as a leafref to a sibling
-	NoUnionWrap  bool // ... but not as a union member (stores whose leaves have one Go type)
+	MaxDepth         int
+	MaxChildren      int
+	Choices          bool
+	NestedChoice     bool
+	Lists            bool
+	CompoundKeys     bool
+	LeafLists        bool
+	Defaults         bool
+	NonConfig        bool
+	Types            []string // allowed leaf base types
+	KeyTypes         []string
+	Aug              bool   // contribute some nodes from an augmenting module
+	Sub              bool   // write some top-level nodes in a submodule (not together with Aug)
+	AugSub           bool   // with Aug: the augments are written in a submodule of the augmenting module
+	Prefix           string // prefix of the main module ("" = its name, m)
+	ModName          string // name of the main module ("" = m)
+	ListsOfAll       bool   // leaf-lists of bits and binary too (a leaf-list of empty is not legal)
+	NumericEnumNames bool   // some enumerations name their values "10", "100" ...
+	Presence         bool
+	Wraps            bool // write some leaf types through a typedef, as a union member or as a leafref to a sibling
+	NoUnionWrap      bool // ... but not as a union member (stores whose leaves have one Go type)
 }
 
 var AllTypes = []string{"int8", "int16", "int32", "int64", "uint8", "uint16", "uint32", "uint64", "decimal64", "string", "boolean", "enumeration", "bits", "identityref", "binary", "empty"}
@@ -653,6 +654,11 @@ func (g *gen) typ(allowed []string) *SType {
 		t.Enums = []string{"zero", "one", "two", "three"}[:2+g.r.Intn(3)]
 		if g.r.Intn(3) == 0 {
 			t.EnumID = []int{5, 10, 20, 40}[:len(t.Enums)]
+		}
+		if g.o.NumericEnumNames && g.r.Intn(3) == 0 {
+			// names that read like numbers, and like the values of other names
+			t.Enums = []string{"10", "100", "fast", "2"}[:2+g.r.Intn(3)]
+			t.EnumID = []int{1, 2, 10, 100}[:len(t.Enums)]
 		}
 	case "bits":
 		t.Bits = []string{"b0", "b1", "b2", "b3"}[:2+g.r.Intn(3)]
@@ -971,4 +977,12 @@ func markModule(n *SNode, m string) {
 	for _, c := range n.Children {
 		markModule(c, m)
 	}
+}
+
+// yqEnum quotes an enum name that a bare spelling would turn into a number
+func yqEnum(name string) string {
+	if name != "" && name[0] >= '0' && name[0] <= '9' {
+		return "\"" + name + "\""
+	}
+	return name
 }
